@@ -17,6 +17,7 @@ import (
 	"go.opentelemetry.io/otel/trace"
 
 	"github.com/aws/aws-sdk-go-v2/aws"
+	awshttp "github.com/aws/aws-sdk-go-v2/aws/transport/http"
 	"github.com/aws/aws-sdk-go-v2/service/s3"
 	"github.com/aws/aws-sdk-go-v2/service/s3/types"
 	"github.com/aws/smithy-go"
@@ -47,6 +48,88 @@ func NewStorage(s3Client *s3.Client) (storage.Storage, error) {
 	}, nil
 }
 
+// storageErrorsByS3Code maps the S3 error code of an API error reply to the
+// storage sentinel error of the same meaning. It is the inverse of the table
+// the pithos HTTP server uses to render storage errors (handleError in
+// internal/http/server/protocol.go writes the sentinel's text as the error
+// code), extended by the codes AWS uses for the same conditions.
+var storageErrorsByS3Code = map[string]error{
+	"NoSuchBucket":            storage.ErrNoSuchBucket,
+	"NoSuchKey":               storage.ErrNoSuchKey,
+	"NoSuchVersion":           storage.ErrNoSuchKey,
+	"NoSuchUpload":            storage.ErrNoSuchKey,
+	"BucketAlreadyExists":     storage.ErrBucketAlreadyExists,
+	"BucketAlreadyOwnedByYou": storage.ErrBucketAlreadyExists,
+	"BucketNotEmpty":          storage.ErrBucketNotEmpty,
+	"PreconditionFailed":      storage.ErrPreconditionFailed,
+	"NotModified":             storage.ErrNotModified,
+	"InvalidRange":            storage.ErrInvalidRange,
+	"InvalidPart":             storage.ErrInvalidPart,
+	"InvalidPartOrder":        storage.ErrInvalidPartOrder,
+	"BadDigest":               storage.ErrBadDigest,
+	"EntityTooLarge":          storage.ErrEntityTooLarge,
+	"TooManyParts":            storage.ErrTooManyParts,
+	"InvalidTag":              storage.ErrInvalidTag,
+	"MetadataTooLarge":        storage.ErrMetadataTooLarge,
+	"InvalidWriteOffset":      storage.ErrInvalidWriteOffset,
+	"InvalidStorageClass":     storage.ErrInvalidStorageClass,
+	"InvalidBucketName":       storage.ErrInvalidBucketName,
+	"NotImplemented":          storage.ErrNotImplemented,
+}
+
+// translateS3Error converts an error returned by the S3 SDK into the storage
+// error the rest of pithos tests for (errors.Is / ==). Errors it does not
+// recognise are returned unchanged.
+func translateS3Error(err error) error {
+	if err == nil {
+		return nil
+	}
+	var responseErr *awshttp.ResponseError
+	if errors.As(err, &responseErr) && responseErr.Response != nil {
+		// Delete markers are reported with a bodyless 404 (current version)
+		// or 405 (addressed by version id) and the delete-marker header.
+		header := responseErr.Response.Header
+		if header.Get("x-amz-delete-marker") == "true" {
+			switch responseErr.HTTPStatusCode() {
+			case http.StatusNotFound:
+				return &storage.CurrentDeleteMarkerError{VersionID: header.Get("x-amz-version-id")}
+			case http.StatusMethodNotAllowed:
+				lastModified, _ := http.ParseTime(header.Get("Last-Modified"))
+				return &storage.VersionDeleteMarkerMethodNotAllowedError{VersionID: header.Get("x-amz-version-id"), LastModified: lastModified}
+			}
+		}
+	}
+	var apiErr smithy.APIError
+	if errors.As(err, &apiErr) {
+		if storageErr, ok := storageErrorsByS3Code[apiErr.ErrorCode()]; ok {
+			return storageErr
+		}
+	}
+	if responseErr != nil {
+		// Replies without a body (HEAD requests, 304) carry no error code.
+		switch responseErr.HTTPStatusCode() {
+		case http.StatusPreconditionFailed:
+			return storage.ErrPreconditionFailed
+		case http.StatusNotModified:
+			return storage.ErrNotModified
+		case http.StatusRequestedRangeNotSatisfiable:
+			return storage.ErrInvalidRange
+		}
+	}
+	return err
+}
+
+// missingBucketOrKey decides what the bodyless 404 of a HEAD request on an
+// object means: the bucket does not exist, or (only) the key does not.
+func (rs *s3ClientStorage) missingBucketOrKey(ctx context.Context, bucketName storage.BucketName) error {
+	_, err := rs.s3Client.HeadBucket(ctx, &s3.HeadBucketInput{Bucket: aws.String(bucketName.String())})
+	var notFoundError *types.NotFound
+	if err != nil && errors.As(err, &notFoundError) {
+		return storage.ErrNoSuchBucket
+	}
+	return storage.ErrNoSuchKey
+}
+
 func (rs *s3ClientStorage) Start(ctx context.Context) error {
 	return rs.ValidatedLifecycle.Start(ctx)
 }
@@ -67,7 +150,7 @@ func (rs *s3ClientStorage) CreateBucket(ctx context.Context, bucketName storage.
 		return storage.ErrBucketAlreadyExists
 	}
 	if err != nil {
-		return err
+		return translateS3Error(err)
 	}
 	return nil
 }
@@ -87,7 +170,7 @@ func (rs *s3ClientStorage) DeleteBucket(ctx context.Context, bucketName storage.
 		return storage.ErrBucketNotEmpty
 	}
 	if err != nil {
-		return err
+		return translateS3Error(err)
 	}
 	return nil
 }
@@ -98,7 +181,7 @@ func (rs *s3ClientStorage) ListBuckets(ctx context.Context) ([]storage.Bucket, e
 
 	listBucketsResult, err := rs.s3Client.ListBuckets(ctx, &s3.ListBucketsInput{})
 	if err != nil {
-		return nil, err
+		return nil, translateS3Error(err)
 	}
 	buckets := sliceutils.Map(func(bucket types.Bucket) storage.Bucket {
 		return storage.Bucket{
@@ -121,7 +204,7 @@ func (rs *s3ClientStorage) HeadBucket(ctx context.Context, bucketName storage.Bu
 		return nil, storage.ErrNoSuchBucket
 	}
 	if err != nil {
-		return nil, err
+		return nil, translateS3Error(err)
 	}
 	return &storage.Bucket{
 		Name:         bucketName,
@@ -141,7 +224,7 @@ func (rs *s3ClientStorage) GetBucketVersioningConfiguration(ctx context.Context,
 		return nil, storage.ErrNoSuchBucket
 	}
 	if err != nil {
-		return nil, err
+		return nil, translateS3Error(err)
 	}
 	if result.Status == "" {
 		return &storage.BucketVersioningConfiguration{}, nil
@@ -159,7 +242,7 @@ func (rs *s3ClientStorage) PutBucketVersioningConfiguration(ctx context.Context,
 		status = types.BucketVersioningStatusEnabled
 	}
 	_, err := rs.s3Client.PutBucketVersioning(ctx, &s3.PutBucketVersioningInput{Bucket: aws.String(bucketName.String()), VersioningConfiguration: &types.VersioningConfiguration{Status: status}})
-	return err
+	return translateS3Error(err)
 }
 
 func (rs *s3ClientStorage) GetBucketNotificationConfiguration(ctx context.Context, bucketName storage.BucketName) (*storage.BucketNotificationConfiguration, error) {
@@ -174,7 +257,7 @@ func (rs *s3ClientStorage) GetBucketNotificationConfiguration(ctx context.Contex
 		return nil, storage.ErrNoSuchBucket
 	}
 	if err != nil {
-		return nil, err
+		return nil, translateS3Error(err)
 	}
 
 	config := &storage.BucketNotificationConfiguration{
@@ -252,7 +335,7 @@ func (rs *s3ClientStorage) PutBucketNotificationConfiguration(ctx context.Contex
 		Bucket:                    aws.String(bucketName.String()),
 		NotificationConfiguration: notificationConfiguration,
 	})
-	return err
+	return translateS3Error(err)
 }
 
 func s3EventsToStrings(events []types.Event) []string {
@@ -309,7 +392,7 @@ func (rs *s3ClientStorage) ListObjects(ctx context.Context, bucketName storage.B
 		return nil, storage.ErrNoSuchBucket
 	}
 	if err != nil {
-		return nil, err
+		return nil, translateS3Error(err)
 	}
 	objects := sliceutils.Map(func(object types.Object) storage.Object {
 		// S3 list responses only carry the checksum type and algorithm, not
@@ -350,7 +433,7 @@ func (rs *s3ClientStorage) ListObjectVersions(ctx context.Context, bucketName st
 		MaxKeys:         aws.Int32(opts.MaxKeys),
 	})
 	if err != nil {
-		return nil, err
+		return nil, translateS3Error(err)
 	}
 
 	versions := []storage.ObjectVersion{}
@@ -386,10 +469,13 @@ func (rs *s3ClientStorage) HeadObject(ctx context.Context, bucketName storage.Bu
 	})
 	var notFoundError *types.NotFound
 	if err != nil && errors.As(err, &notFoundError) {
-		return nil, storage.ErrNoSuchBucket
+		if translated := translateS3Error(err); translated != err {
+			return nil, translated
+		}
+		return nil, rs.missingBucketOrKey(ctx, bucketName)
 	}
 	if err != nil {
-		return nil, err
+		return nil, translateS3Error(err)
 	}
 	var userMetadata map[string]string
 	if len(headObjectResult.Metadata) > 0 {
@@ -476,7 +562,7 @@ func (rs *s3ClientStorage) GetObject(ctx context.Context, bucketName storage.Buc
 			for _, r := range readers {
 				r.Close()
 			}
-			return nil, nil, err
+			return nil, nil, translateS3Error(err)
 		}
 		readers = append(readers, getObjectResult.Body)
 	}
@@ -604,7 +690,7 @@ func (rs *s3ClientStorage) PutObject(ctx context.Context, bucketName storage.Buc
 		if errors.As(err, &apiErr) && apiErr.ErrorCode() == "PreconditionFailed" {
 			return nil, storage.ErrPreconditionFailed
 		}
-		return nil, err
+		return nil, translateS3Error(err)
 	}
 
 	return &storage.PutObjectResult{
@@ -661,7 +747,7 @@ func translateS3CopyError(err error) error {
 	if errors.As(err, &noSuchKeyError) {
 		return storage.ErrNoSuchKey
 	}
-	return err
+	return translateS3Error(err)
 }
 
 func (rs *s3ClientStorage) CopyObject(ctx context.Context, srcBucket storage.BucketName, srcKey storage.ObjectKey, dstBucket storage.BucketName, dstKey storage.ObjectKey, opts *storage.CopyObjectOptions) (*storage.CopyObjectResult, error) {
@@ -777,7 +863,7 @@ func (rs *s3ClientStorage) DeleteObject(ctx context.Context, bucketName storage.
 		return nil, storage.ErrNoSuchBucket
 	}
 	if err != nil {
-		return nil, err
+		return nil, translateS3Error(err)
 	}
 	return &storage.DeleteObjectResult{VersionID: result.VersionId, IsDeleteMarker: aws.ToBool(result.DeleteMarker)}, nil
 }
@@ -808,7 +894,7 @@ func (rs *s3ClientStorage) DeleteObjects(ctx context.Context, bucketName storage
 		return nil, storage.ErrNoSuchBucket
 	}
 	if err != nil {
-		return nil, err
+		return nil, translateS3Error(err)
 	}
 
 	result := &storage.DeleteObjectsResult{
@@ -876,7 +962,7 @@ func (rs *s3ClientStorage) CreateMultipartUpload(ctx context.Context, bucketName
 		return nil, storage.ErrNoSuchBucket
 	}
 	if err != nil {
-		return nil, err
+		return nil, translateS3Error(err)
 	}
 	return &storage.InitiateMultipartUploadResult{
 		UploadId: storage.MustNewUploadId(*initiateMultipartUploadResult.UploadId),
@@ -909,7 +995,7 @@ func (rs *s3ClientStorage) UploadPart(ctx context.Context, bucketName storage.Bu
 		return nil, storage.ErrNoSuchBucket
 	}
 	if err != nil {
-		return nil, err
+		return nil, translateS3Error(err)
 	}
 	return &storage.UploadPartResult{
 		ETag:              *uploadPartResult.ETag,
@@ -1007,7 +1093,7 @@ func (rs *s3ClientStorage) CompleteMultipartUpload(ctx context.Context, bucketNa
 		return nil, storage.ErrNoSuchBucket
 	}
 	if err != nil {
-		return nil, err
+		return nil, translateS3Error(err)
 	}
 	return &storage.CompleteMultipartUploadResult{
 		Location:          *completeMultipartUploadResult.Location,
@@ -1036,7 +1122,7 @@ func (rs *s3ClientStorage) AbortMultipartUpload(ctx context.Context, bucketName 
 		return storage.ErrNoSuchBucket
 	}
 	if err != nil {
-		return err
+		return translateS3Error(err)
 	}
 	return nil
 }
@@ -1058,7 +1144,7 @@ func (rs *s3ClientStorage) ListMultipartUploads(ctx context.Context, bucketName 
 		return nil, storage.ErrNoSuchBucket
 	}
 	if err != nil {
-		return nil, err
+		return nil, translateS3Error(err)
 	}
 
 	uploads := sliceutils.Map(func(upload types.MultipartUpload) storage.Upload {
@@ -1103,7 +1189,7 @@ func (rs *s3ClientStorage) ListParts(ctx context.Context, bucketName storage.Buc
 		return nil, storage.ErrNoSuchBucket
 	}
 	if err != nil {
-		return nil, err
+		return nil, translateS3Error(err)
 	}
 	return &storage.ListPartsResult{
 		BucketName:           storage.MustNewBucketName(*listPartsResult.Bucket),
@@ -1145,7 +1231,7 @@ func (rs *s3ClientStorage) GetBucketWebsiteConfiguration(ctx context.Context, bu
 		return nil, storage.ErrNoSuchBucket
 	}
 	if err != nil {
-		return nil, err
+		return nil, translateS3Error(err)
 	}
 
 	config := &storage.WebsiteConfiguration{}
@@ -1244,7 +1330,7 @@ func (rs *s3ClientStorage) PutBucketWebsiteConfiguration(ctx context.Context, bu
 		return storage.ErrNoSuchBucket
 	}
 	if err != nil {
-		return err
+		return translateS3Error(err)
 	}
 	return nil
 }
@@ -1261,7 +1347,7 @@ func (rs *s3ClientStorage) DeleteBucketWebsiteConfiguration(ctx context.Context,
 		return storage.ErrNoSuchBucket
 	}
 	if err != nil {
-		return err
+		return translateS3Error(err)
 	}
 	return nil
 }
@@ -1281,7 +1367,7 @@ func (rs *s3ClientStorage) GetBucketCORSConfiguration(ctx context.Context, bucke
 		return nil, storage.ErrNoSuchBucket
 	}
 	if err != nil {
-		return nil, err
+		return nil, translateS3Error(err)
 	}
 
 	rules := make([]storage.CORSRule, 0, len(result.CORSRules))
@@ -1336,7 +1422,7 @@ func (rs *s3ClientStorage) PutBucketCORSConfiguration(ctx context.Context, bucke
 		return storage.ErrNoSuchBucket
 	}
 	if err != nil {
-		return err
+		return translateS3Error(err)
 	}
 	return nil
 }
@@ -1353,7 +1439,7 @@ func (rs *s3ClientStorage) DeleteBucketCORSConfiguration(ctx context.Context, bu
 		return storage.ErrNoSuchBucket
 	}
 	if err != nil {
-		return err
+		return translateS3Error(err)
 	}
 	return nil
 }
@@ -1555,7 +1641,7 @@ func (rs *s3ClientStorage) GetBucketLifecycleConfiguration(ctx context.Context, 
 		return nil, storage.ErrNoSuchBucket
 	}
 	if err != nil {
-		return nil, err
+		return nil, translateS3Error(err)
 	}
 
 	rules := make([]storage.LifecycleRule, 0, len(result.Rules))
@@ -1586,7 +1672,7 @@ func (rs *s3ClientStorage) PutBucketLifecycleConfiguration(ctx context.Context, 
 		return storage.ErrNoSuchBucket
 	}
 	if err != nil {
-		return err
+		return translateS3Error(err)
 	}
 	return nil
 }
@@ -1603,7 +1689,7 @@ func (rs *s3ClientStorage) DeleteBucketLifecycleConfiguration(ctx context.Contex
 		return storage.ErrNoSuchBucket
 	}
 	if err != nil {
-		return err
+		return translateS3Error(err)
 	}
 	return nil
 }
@@ -1625,7 +1711,7 @@ func (rs *s3ClientStorage) GetObjectTagging(ctx context.Context, bucketName stor
 		return nil, storage.ErrNoSuchKey
 	}
 	if err != nil {
-		return nil, err
+		return nil, translateS3Error(err)
 	}
 
 	tags := map[string]string{}
@@ -1661,7 +1747,7 @@ func (rs *s3ClientStorage) PutObjectTagging(ctx context.Context, bucketName stor
 		return storage.ErrNoSuchKey
 	}
 	if err != nil {
-		return err
+		return translateS3Error(err)
 	}
 	return nil
 }
@@ -1683,7 +1769,7 @@ func (rs *s3ClientStorage) DeleteObjectTagging(ctx context.Context, bucketName s
 		return storage.ErrNoSuchKey
 	}
 	if err != nil {
-		return err
+		return translateS3Error(err)
 	}
 	return nil
 }
